@@ -136,6 +136,7 @@ def h_crash(params):
             h.db.get(TagQuery().k == "a")
         k = choose("k", KMAX)
         after = bool(lpe.sym_bool("after")) if mode == "oserror" else False
+        files.CTL.watch = [h.path]
         files.CTL.reset(mode=mode, at=k, after=after)
         files.CTL.handles = []
         files.CTL.active = True
@@ -172,12 +173,18 @@ def h_crash(params):
 def _check_disk(h, oks, where):
     from tinyflux import TinyFlux
 
-    pts, why = files.decode_file(h.path)
+    data = files.CTL.snapshot.get(h.path)
+    require(data is not None, lambda: f"{where}: the database file does not exist at the crash instant")
+    pts, why = files.decode_file(h.path, data=data)
     require(pts is not None, lambda: f"{where}: the file left on disk does not decode: {why}")
     require(any(same(pts, o) for o in oks), lambda: f"{where}: the file holds {show(pts)}, which is neither the old nor the new contents")
     files.uninstall()
+    # a fresh process opens the file as it was left at the crash instant
+    crashed_copy = h.path + ".crashed.csv"
+    with open(crashed_copy, "wb") as f:
+        f.write(data)
     try:
-        db2 = TinyFlux(h.path, auto_index=True)
+        db2 = TinyFlux(crashed_copy, auto_index=True)
         got = db2.all(sorted=False)
         db2.close()
     except Exception as e:
